@@ -340,7 +340,7 @@ func (p *c03) Run(c fw.Case) fw.Result {
 	case c.Directed != "":
 		p.directedMods(&res, c)
 	case c.Gen%2 == 0:
-		o := gen.ScenOpts{ContactChanges: true, QueryGroups: r.Chance(0.7), MaxNodes: r.Range(2, 6), LongTexts: r.Chance(0.3)}
+		o := gen.ScenOpts{ContactChanges: true, QueryGroups: r.Chance(0.7), MaxNodes: r.Range(2, 6), LongTexts: r.Chance(0.3), RefreshP: 0.35}
 		p.engine(&res, gen.Scen(r, o), c)
 	default:
 		p.mods(&res, r, c)
@@ -494,7 +494,7 @@ func (p *c03) genMods(r *fw.Rand, sa flows.SessionAssets, am gen.M, n int, long 
 	for i := 0; i < n; i++ {
 		switch r.Intn(9) {
 		case 0:
-			name := fw.Pick(r, []string{"Bob", "", "Bob Smith", "bob smith", "日本語 😀", " Bob "})
+			name := fw.Pick(r, []string{"Bob", "", "Bob Smith", "bob smith", "日本語 😀", " Bob ", " ", "\t"})
 			if long {
 				name = gen.LongString(fw.Pick(r, []int{5, 639, 640, 641, 700}), fw.Pick(r, []int{4, 639, 640}))
 			}
@@ -518,7 +518,7 @@ func (p *c03) genMods(r *fw.Rand, sa flows.SessionAssets, am gen.M, n int, long 
 				continue
 			}
 			f := fw.Pick(r, all)
-			v := fw.Pick(r, []string{"", "23", "17", "male", "bobby", "2018-05-05", "Kigali City", "Gasabo", "Gisozi", "23.0", " 23 ", "abc 23", "2017-12-02T10:00:00Z", "x"})
+			v := fw.Pick(r, []string{"", "23", "17", "male", "bobby", "2018-05-05", "Kigali City", "Gasabo", "Gisozi", "23.0", " 23 ", "abc 23", "2017-12-02T10:00:00Z", "x", " ", "  \t ", "\n", "\u00a0", " x "})
 			if long && r.Chance(0.5) {
 				v = gen.LongString(fw.Pick(r, []int{639, 640, 641, 700}), fw.Pick(r, []int{638, 639, 640})) + fw.Pick(r, []string{"", " 25", " 2019-12-25"})
 			}
@@ -748,6 +748,10 @@ func (p *c03) directedMods(res *fw.Result, c fw.Case) {
 		add(mk(nil), "field", "field same", modifiers.NewField(sa.Fields().Get("age"), "23"))
 		add(mk(nil), "field", "field state", modifiers.NewField(sa.Fields().Get("state"), "Kigali"))
 		add(mk(nil), "field", "field long", modifiers.NewField(sa.Fields().Get("nick"), gen.LongString(700, 639)))
+		add(mk(nil), "field", "field blank on unset text field", modifiers.NewField(sa.Fields().Get("nick"), "  "))
+		add(mk(nil), "field", "field blank on set text field", modifiers.NewField(sa.Fields().Get("gender"), " \t "))
+		add(mk(nil), "field", "field blank on set number field", modifiers.NewField(sa.Fields().Get("age"), " "))
+		add(mk(nil), "name", "name blank", modifiers.NewName("  "))
 		add(mk(nil), "channel", "channel", modifiers.NewChannel(allChannels(sa, scen.Assets)[0]))
 		add(mk(nil), "channel", "channel nil", modifiers.NewChannel(nil))
 		add(mk(nil), "ticket", "ticket", modifiers.NewTicket(allTopics(sa, scen.Assets)[0], allUsers(sa, scen.Assets)[0], "note"))
